@@ -1075,6 +1075,9 @@ pub type H4 = S<A8, 8>;
 pub type H5 = S<A8, 24>;
 pub type H6 = S<A16, 16>;
 pub type H7 = S<A64, 64>;
+/// zero-sized headers whose alignment exceeds the count word's (and most elements')
+pub type H8 = S<A64, 0>;
+pub type H9 = S<A16, 0>;
 
 pub type E0 = S<A1, 0>;
 pub type E1 = S<A1, 1>;
@@ -1158,7 +1161,7 @@ impl Engine for MatrixEngine {
         let _ = alloc::case_end();
         let _ = viol::take();
         let mut cx = Ctx { what: String::new(), trace: if trace { Some(vec![]) } else { None }, over_or_zst_or_padded: false, release_differs: false, moved_between: false, union_nt: false, lens: 0 };
-        let hi = pick(case.p(0), 8);
+        let hi = pick(case.p(0), 10);
         let ei = pick(case.p(1), 12);
         let r = catch_unwind(AssertUnwindSafe(|| match hi {
             0 => dispatch_e!(&mut cx, case, &self.fams, H0, ei),
@@ -1168,7 +1171,9 @@ impl Engine for MatrixEngine {
             4 => dispatch_e!(&mut cx, case, &self.fams, H4, ei),
             5 => dispatch_e!(&mut cx, case, &self.fams, H5, ei),
             6 => dispatch_e!(&mut cx, case, &self.fams, H6, ei),
-            _ => dispatch_e!(&mut cx, case, &self.fams, H7, ei),
+            7 => dispatch_e!(&mut cx, case, &self.fams, H7, ei),
+            8 => dispatch_e!(&mut cx, case, &self.fams, H8, ei),
+            _ => dispatch_e!(&mut cx, case, &self.fams, H9, ei),
         }));
         if r.is_err() {
             viol::report(&["C05", "C11", "C12"], "M.panic", format!("{}: unexpected panic", cx.what));
